@@ -65,14 +65,21 @@ func (g *TypeGuard) resolve(e ast.Expr) ast.Expr {
 	e = Unparen(e)
 	for i := 0; i < 4; i++ {
 		id, ok := e.(*ast.Ident)
-		if !ok || g.subst == nil {
-			return e
-		}
-		r, ok := g.subst[g.Info.Uses[id]]
 		if !ok {
 			return e
 		}
-		e = Unparen(r)
+		if r, ok := g.subst[g.Info.Uses[id]]; ok {
+			e = Unparen(r)
+			continue
+		}
+		// a local bound once to a question about the type (`kind := t.Kind()`)
+		if g.Defs != nil && !g.Is(id) {
+			if d, ok := Unparen(g.Defs.Def(g.Info.Uses[id])).(*ast.CallExpr); ok {
+				e = d
+				continue
+			}
+		}
+		return e
 	}
 	return e
 }
